@@ -10,6 +10,7 @@ PUNCT = ['(', ')', '{', '}', '[', ']', ';', ',', '.', '=', '==', '->', '::', '+'
          '"', "'", '&', '|', '!', '#', ':', '%']
 CJK = ['日本', '語', '中文', '漢字', 'かな', 'カナ', '한']
 COMBINING = ['é', 'ö', 'á']
+LEADING_EXTENDERS = ['\u0301', '\u0308', '\ufe0f', '\u200d']
 EMOJI = ['😀', '🎉']
 MARKERLIKE = ['-- x', '--- x', '- y', '++ x', '+++ x', '+ y', '@@ x @@', '@@ -1,2 +1,2 @@', '\\ No newline',
               '\\', 'diff x', 'diff --git a/q b/q', 'commit abc', 'index 123..456', '--', '++', '@@',
@@ -52,6 +53,9 @@ def rand_text(rng, maxlen=40, unicode_ok=True, tabs_ok=True, allow_empty=True):
         if rng.random() < 0.5:
             parts.append(' ')
     s = ''.join(parts)
+    if unicode_ok and rng.random() < 0.02:
+        # text that begins with a grapheme-extending character (it would join the diff marker into one cluster)
+        s = rng.choice(LEADING_EXTENDERS) + s.lstrip(' ')
     if rng.random() < 0.08:
         s += ' ' * rng.randint(1, 3)
     if rng.random() < 0.03 and tabs_ok:
@@ -225,7 +229,8 @@ PATH_PARTS = ['src', 'lib', 'a', 'b', 'dir with space', 'tests', 'x-y', 'v1.2', 
 NAMES = ['main.rs', 'foo.py', 'Makefile', 'README.md', 'a.c', 'b.js', 'file with space.txt', 'x', 'data.json',
          'no_ext', 'über.rs', 'b.go', 'lib.rs', 'util.h', 'index.html', 's.sh']
 FRAGMENTS = ['', '', 'fn main() {', 'def f(x):', 'class A:', 'impl Foo for Bar {', 'int main(void)', 'x = 1',
-             'fn a() -> @@ b', '  indented', '日本 語']
+             'fn a() -> @@ b', '  indented', '日本 語', 'def lookup(t, key, default=-1):', 'case -12:', 'tbl[N+3] = x-7,+9',
+             '@@ -5,6 +7,8 @@ nested']
 
 
 def rand_path(rng, simple=False):
